@@ -310,4 +310,206 @@ theorem hb_wr (cx cx' : Ctx) (x : Obj) (h : CtxSim cx cx') (hi : ObjInv x)
   | ppi p => rfl
   | pktap p => rfl
 
+/-! ### serializing the re-parsed stack -/
+
+theorem wr_cls (cx : Ctx) (y : Obj) : (info (wr cx y)).1 = (info y).1 := by cases y <;> rfl
+
+theorem wr_hdr (cx : Ctx) (y : Obj) : hdr (wr cx y) = hdr y := by
+  cases y <;> try rfl
+  case llc l => simp only [wr, hdr, Llc.normal, Llc.hdr]; split <;> rfl
+
+theorem etherTagOf_wr (cx : Ctx) (y : Obj) (h t h' t' : Nat) :
+    etherTagOf ⟨(info (wr cx y)).1, (info (wr cx y)).2, h', t'⟩ = etherTagOf ⟨(info y).1, (info y).2, h, t⟩ := by
+  cases y <;> rfl
+
+/-- the re-parsed stack shows the layers above it the same classes and the same EtherTypes -/
+theorem infos_re_key (os : List AnyObj) : ∀ (ps : List LayerInfo) (k : Nat), Stackable os →
+    (infos (re ps os k)).map key = (infos os).map key := by
+  induction os with
+  | nil => intro ps k _; rfl
+  | cons a r ih =>
+    intro ps k hs
+    cases a with
+    | raw p =>
+      have hr : r = [] := hs
+      subst hr
+      simp [re, infos, key, AnyObj.info, etherTagOf_raw]
+    | l2 x =>
+      simp only [re, infos, List.map_cons, List.cons.injEq, key, Prod.mk.injEq]
+      refine ⟨⟨wr_cls _ x, ?_⟩, ih _ _ hs.2.2⟩
+      exact etherTagOf_wr _ x _ _ _ _
+    | ip _ => exact hs.elim
+    | ip6 _ => exact hs.elim
+    | icmp _ => exact hs.elim
+    | tr _ => exact hs.elim
+    | app _ => exact hs.elim
+    | wifi _ => exact hs.elim
+
+def hasPppoe : List AnyObj → Bool
+  | [] => false
+  | .l2 x :: r => isPppoe x || hasPppoe r
+  | _ :: r => hasPppoe r
+
+/-- how many of `k` padding bytes behind a stack end up in its payload: all, unless a PPPoE payload length cuts them off -/
+def pk (os : List AnyObj) (k : Nat) : Nat := if hasPppoe os then 0 else k
+
+/-- excluded from the fixed-point theorem (KF-C04-L2-4): a Dot1Q that pads (`append_padding_`, object state that is not on
+    the wire and that the parser clears) above a PPPoE layer, whose payload length cuts the padding off — the re-parsed
+    packet neither carries the padding in its payload nor re-creates it.  Never the case for a parsed stack. -/
+def PadKept : List AnyObj → Prop
+  | [] => True
+  | .l2 (.dot1q q) :: r => (q.appendPadding = true → hasPppoe r = false) ∧ PadKept r
+  | _ :: r => PadKept r
+
+theorem padKept_tail (a : AnyObj) (r : List AnyObj) (h : PadKept (a :: r)) : PadKept r := by
+  cases a with
+  | l2 x => cases x <;> first | exact h.2 | exact h
+  | _ => exact h
+
+/-- `Σ (header + trailer)` of a stack -/
+def sizeSum (os : List AnyObj) : Nat := ((infos os).map (fun l => l.hdr + l.trl)).sum
+
+theorem sizeSum_l2 (x : Obj) (r : List AnyObj) : sizeSum (.l2 x :: r) = hdr x + trl x (sizeSum r) + sizeSum r := by
+  simp [sizeSum, infos, AnyObj.hdr, AnyObj.trl]
+
+theorem splitRaw_l2_cons (x : Obj) (a : AnyObj) (r : List AnyObj) : (splitRaw (.l2 x :: a :: r)).2 = (splitRaw (a :: r)).2 := by
+  rw [splitRaw_cons_cons]
+
+theorem pk_zero (os : List AnyObj) : pk os 0 = 0 := by unfold pk; split <;> rfl
+
+/-- once the padding is part of the payload the re-parsed layer needs no trailer -/
+theorem trl_wr_absorb (cx : Ctx) (x : Obj) (n k : Nat) : trl (wr cx x) (n + (trl x n + k)) = 0 := by
+  cases x <;> try rfl
+  case eth e => simp only [wr, trl, Eth.trl]; omega
+
+/-- with the same inner size the re-parsed layer has the trailer of the original one, unless that was a Dot1Q padding
+    on behalf of `append_padding_` -/
+theorem trl_wr_same (cx : Ctx) (x : Obj) (n : Nat) (h : ∀ q, x = .dot1q q → q.appendPadding = false) :
+    trl (wr cx x) n = trl x n := by
+  cases x with
+  | dot1q q => simp [wr, trl, Dot1Q.trl, h q rfl]
+  | _ => rfl
+
+theorem re_l2 (ps : List LayerInfo) (x : Obj) (os : List AnyObj) (k : Nat) :
+    re ps (.l2 x :: os) k =
+      .l2 (wr (cxOf ps os) x) :: re (liOf x os :: ps) os (padTo x (trl x (sizeSum os) + k)) := rfl
+
+theorem wire_l2 (ps : List LayerInfo) (x : Obj) (os : List AnyObj) :
+    wire ps (.l2 x :: os) = hb (cxOf ps os) x ++ wire (liOf x os :: ps) os ++ List.replicate (trl x (sizeSum os)) 0 := rfl
+
+theorem cxOf_innerSize' (ps : List LayerInfo) (os : List AnyObj) : (cxOf ps os).innerSize = sizeSum os := rfl
+
+/-- one layer of `wire_re`, given the result for the stack below -/
+theorem wire_re_step (ps ps' : List LayerInfo) (x : Obj) (R R' : List AnyObj) (k n : Nat)
+    (hinv : ObjInv x) (hnn : sizeSum R = n) (hkx : k = 0 ∨ EtherTier x)
+    (hstp : ∀ l, x = .llc l → (cxOf ps R).innerCls ≠ some "STP")
+    (hpad : ∀ q, x = .dot1q q → q.appendPadding = true → hasPppoe R = false)
+    (hsim : CtxSim (cxOf ps R) (cxOf ps' R'))
+    (hw : wire (liOf (wr (cxOf ps R) x) R' :: ps') R' =
+      wire (liOf x R :: ps) R ++ List.replicate (pk R (padTo x (trl x n + k))) 0)
+    (hsz : sizeSum R' = n + pk R (padTo x (trl x n + k))) :
+    wire ps' (.l2 (wr (cxOf ps R) x) :: R') = wire ps (.l2 x :: R) ++ List.replicate (pk (.l2 x :: R) k) 0 ∧
+    sizeSum (.l2 (wr (cxOf ps R) x) :: R') = sizeSum (.l2 x :: R) + pk (.l2 x :: R) k := by
+  rw [wire_l2, wire_l2, sizeSum_l2, sizeSum_l2, hnn, hsz, hw, wr_hdr]
+  by_cases hxp : isPppoe x = true
+  · -- PPPoE: the padding is cut off
+    have hkk : padTo x (trl x n + k) = 0 := by simp [padTo, hxp]
+    rw [hkk, pk_zero] at hsz ⊢
+    have hpk0 : pk (.l2 x :: R) k = 0 := by simp [pk, hasPppoe, hxp]
+    have hhb := hb_wr (cxOf ps R) (cxOf ps' R') x hsim hinv
+      ⟨fun d _ => by rw [cxOf_innerSize', cxOf_innerSize', hsz, hnn]; rfl,
+       fun p _ => by rw [cxOf_innerSize', cxOf_innerSize', hsz, hnn]; rfl⟩ hstp
+    have htr : trl (wr (cxOf ps R) x) n = trl x n := by
+      cases x <;> first | rfl | (simp [isPppoe] at hxp)
+    rw [hhb, hpk0, Nat.add_zero, htr]
+    exact ⟨by simp, rfl⟩
+  · have hxp' : isPppoe x = false := by simpa using hxp
+    have hkk : padTo x (trl x n + k) = trl x n + k := by simp [padTo, hxp']
+    rw [hkk] at hsz ⊢
+    by_cases hpp : hasPppoe R = true
+    · -- a PPPoE below cuts the padding off: same sizes, same trailer
+      have hpkR : pk R (trl x n + k) = 0 := by simp [pk, hpp]
+      rw [hpkR] at hsz ⊢
+      have hpk0 : pk (.l2 x :: R) k = 0 := by simp [pk, hasPppoe, hpp]
+      have hhb := hb_wr (cxOf ps R) (cxOf ps' R') x hsim hinv
+        ⟨fun d _ => by rw [cxOf_innerSize', cxOf_innerSize', hsz, hnn]; rfl,
+         fun p _ => by rw [cxOf_innerSize', cxOf_innerSize', hsz, hnn]; rfl⟩ hstp
+      have htr : trl (wr (cxOf ps R) x) n = trl x n := by
+        apply trl_wr_same
+        intro q hq
+        cases hqa : q.appendPadding with
+        | false => rfl
+        | true => have := hpad q hq hqa; rw [hpp] at this; cases this
+      rw [hhb, hpk0, Nat.add_zero, htr]
+      exact ⟨by simp, rfl⟩
+    · -- the padding is absorbed by the payload: no trailer any more
+      have hpp' : hasPppoe R = false := by simpa using hpp
+      have hpkR : pk R (trl x n + k) = trl x n + k := by simp [pk, hpp']
+      rw [hpkR] at hsz ⊢
+      have hpk0 : pk (.l2 x :: R) k = k := by simp [pk, hasPppoe, hpp', hxp']
+      have hk0 : ¬ EtherTier x → k = 0 := fun hne => by rcases hkx with h | h; exact h; exact absurd h hne
+      have hhb := hb_wr (cxOf ps R) (cxOf ps' R') x hsim hinv
+        ⟨fun d hd => by
+           subst hd
+           have h0 : k = 0 := hk0 (by simp [EtherTier])
+           subst h0
+           rw [cxOf_innerSize', cxOf_innerSize', hsz, hnn]; rfl,
+         fun p hp' => by subst hp'; simp [isPppoe] at hxp'⟩ hstp
+      have htr := trl_wr_absorb (cxOf ps R) x n k
+      rw [hhb, hpk0, htr]
+      refine ⟨by simp [List.replicate_append_replicate], by omega⟩
+
+/-- **the closed forms agree**: the serialization of the re-parsed stack is the serialization of the original one followed
+    by the padding that reached the payload (and the sizes agree) -/
+theorem wire_re (os : List AnyObj) : ∀ (ps ps' : List LayerInfo) (k : Nat),
+    Stackable os → PadKept os → (splitRaw os).2 ≠ [] → ps'.isEmpty = ps.isEmpty →
+    (∀ x r, os = .l2 x :: r → k = 0 ∨ EtherTier x) →
+    wire ps' (re ps os k) = wire ps os ++ List.replicate (pk os k) 0 ∧ sizeSum (re ps os k) = sizeSum os + pk os k := by
+  induction os with
+  | nil => intro ps ps' k _ _ hp; exact absurd rfl hp
+  | cons a r ih =>
+    intro ps ps' k hs hpk hp hps hk
+    cases a with
+    | raw p =>
+      have hr : r = [] := hs
+      subst hr
+      simp [re, wire, pk, hasPppoe, sizeSum, infos, AnyObj.hdr, AnyObj.trl]
+    | l2 x =>
+      obtain ⟨hinv, hlink, hs'⟩ := hs
+      have hr : r ≠ [] := by intro e; subst e; exact hp rfl
+      obtain ⟨a2, r2, rfl⟩ : ∃ a2 r2, r = a2 :: r2 := by
+        cases r with
+        | nil => exact absurd rfl hr
+        | cons a2 r2 => exact ⟨a2, r2, rfl⟩
+      rw [splitRaw_l2_cons] at hp
+      have hkx : k = 0 ∨ EtherTier x := hk x _ rfl
+      have hk'' : ∀ y r3, a2 :: r2 = .l2 y :: r3 →
+          padTo x (trl x (sizeSum (a2 :: r2)) + k) = 0 ∨ EtherTier y := by
+        intro y r3 he
+        have hl : Link x (.l2 y r3) := by rw [he] at hlink; exact hlink
+        have hnp : isPppoe x = false := by cases x <;> first | rfl | (simp [Link] at hl)
+        have := link_pad [liOf x []] x y r3 (sizeSum (a2 :: r2)) k hl
+          (by rcases hkx with h | h; exact .inl h; exact .inr ⟨by simp, h⟩)
+        simpa [padTo, hnp] using this
+      rw [re_l2]
+      rcases ih (liOf x (a2 :: r2) :: ps) (liOf (wr (cxOf ps (a2 :: r2)) x)
+          (re (liOf x (a2 :: r2) :: ps) (a2 :: r2) (padTo x (trl x (sizeSum (a2 :: r2)) + k))) :: ps')
+        (padTo x (trl x (sizeSum (a2 :: r2)) + k)) hs' (padKept_tail _ _ hpk) hp rfl hk'' with ⟨hw, hsz⟩
+      have hstp : ∀ l, x = .llc l → (cxOf ps (a2 :: r2)).innerCls ≠ some "STP" := by
+        intro l hl
+        subst hl
+        cases hnx : next (a2 :: r2) with
+        | none => have := next_none hnx; cases this
+        | raw p => have := next_raw hnx; rw [this, cxOf_innerCls_raw]; decide
+        | l2 y r3 => rw [hnx] at hlink; simp [Link] at hlink
+        | bad => rw [hnx] at hlink; simp [Link] at hlink
+      exact wire_re_step ps ps' x (a2 :: r2) _ k _ hinv rfl hkx hstp
+        (fun q hq => by subst hq; exact hpk.1) ⟨hps, infos_re_key _ _ _ hs'⟩ hw hsz
+    | ip _ => exact hs.elim
+    | ip6 _ => exact hs.elim
+    | icmp _ => exact hs.elim
+    | tr _ => exact hs.elim
+    | app _ => exact hs.elim
+    | wifi _ => exact hs.elim
+
 end Tins.Wire.L2
